@@ -92,8 +92,10 @@ impl Blob {
         let length = std::io::copy(reader, writer).write_err("Failed to write blob data")?;
 
         // Update blob section header with actual lenght
+        // (the section length covers the header, the data and the padding to the next 4-byte boundary)
         let end_offset = writer.physical_position()?;
-        section_header.section_length = length;
+        let padding = (4 - (length % 4)) % 4;
+        section_header.section_length = 16 + length + padding;
         writer.physical_seek(start_offset)?;
         section_header.to_writer(writer)?;
         writer.physical_seek(end_offset)?;
